@@ -4,6 +4,7 @@ from framework import Case
 import c08
 
 PROP = 'C15'
+TRANSLATORS = ['ugraph']
 RULE = ('weighted digraphs reached by build/removal histories in the C08 op language (all constructors, initial capacities '
         '0-4, index reuse after removals, clear-and-rebuild): random sparse/dense graphs, rings and rings with chords (cycles), '
         'layered grids with equal weights (many ties), zero-weight edges and zero-weight cycles, self-loops, unreachable parts, '
